@@ -75,22 +75,24 @@ Proof.
   rewrite Ec'. exact Hu'.
 Qed.
 
-Lemma dispense_all_checked0 d label v ps : forall rb rb' rb1,
+Lemma dispense_all_checked0 d label v v' ps : v' == v -> forall rb rb' rb1,
   racks_near E0 (rb_racks rb) (rb_racks rb') -> dispense_all true d rb label ps v = Some rb1 ->
-  exists rb1', dispense_all true d rb' label ps v = Some rb1' /\ racks_near E0 (rb_racks rb1) (rb_racks rb1').
+  exists rb1', dispense_all true d rb' label ps v' = Some rb1' /\ racks_near E0 (rb_racks rb1) (rb_racks rb1').
 Proof.
-  induction ps as [|p rest IH]; intros rb rb' rb1 Hnear H; cbn [dispense_all] in *.
+  intro Hvv. induction ps as [|p rest IH]; intros rb rb' rb1 Hnear H; cbn [dispense_all] in *.
   - injection H as <-. exists rb'. split; [reflexivity|exact Hnear].
   - destruct (do_dispense true d rb label p v) as [rb2|] eqn:Ed; [|discriminate].
-    destruct (do_dispense_checked0 d rb rb' label p v v rb2 Hnear ltac:(reflexivity) Ed) as (rb2' & Ed' & Hnear2).
+    destruct (do_dispense_checked0 d rb rb' label p v v' rb2 Hnear Hvv Ed) as (rb2' & Ed' & Hnear2).
     rewrite Ed'. exact (IH rb2 rb2' rb1 Hnear2 H).
 Qed.
 
-Lemma do_reagent_checked0 d rb rb' f rb1 :
+Lemma do_reagent_checked0 d rb rb' f v rb1 : pynum_q v == pynum_q (r_volume f) ->
   racks_near E0 (rb_racks rb) (rb_racks rb') -> do_reagent true d rb f = Some rb1 ->
-  exists rb1', do_reagent true d rb' f = Some rb1' /\ racks_near E0 (rb_racks rb1) (rb_racks rb1').
+  exists rb1', do_reagent true d rb' (set_r_volume f v) = Some rb1' /\
+               racks_near E0 (rb_racks rb1) (rb_racks rb1').
 Proof.
-  intros Hnear H. unfold do_reagent in *.
+  intros Hvv Hnear H. unfold do_reagent in *.
+  cbn [set_r_volume r_src_label r_src_start r_src_end r_dst_label r_dst_start r_dst_end r_exclude r_volume].
   destruct (find_rack (rb_racks rb) (r_src_label f)) as [k|] eqn:Hf; [|discriminate].
   destruct (nth_error (rb_racks rb) k) as [r|] eqn:Hr; [|discriminate].
   destruct (range_index d (rk_geom r) _ _) as [i|] eqn:Hu; [|discriminate].
@@ -101,15 +103,16 @@ Proof.
   match goal with |- context [Qltb ?x ?m] =>
     assert (Ec' : Qltb x m = false);
     [apply Qltb_false in Ec; destruct (Qltb x m) eqn:E; [|reflexivity];
-     apply Qltb_true in E; pose proof (near0_eq _ _ (Hd i)) as Hi; rewrite Hmin in E; lra|] end.
+     apply Qltb_true in E; pose proof (near0_eq _ _ (Hd i)) as Hi; rewrite Hmin, Hvv in E; lra|] end.
   rewrite Ec'.
-  eapply dispense_all_checked0; [|exact H]. unfold with_rack. cbn [rb_racks].
+  eapply dispense_all_checked0; [exact Hvv| |exact H]. unfold with_rack. cbn [rb_racks].
   match goal with |- racks_near _ (upd _ _ (set_rack_vol _ _ ?a)) (upd _ _ (set_rack_vol _ _ ?b)) =>
     change (set_rack_vol r i a) with (mk_rack r (upd (rk_vols r) i a) (rk_comp r));
     change (set_rack_vol r' i b) with (mk_rack r' (upd (rk_vols r') i b) (rk_comp r')) end.
   apply (racks_near_upd E0); try assumption.
   - intros k1 j. apply Qle_refl.
-  - specialize (Hd i). apply Qabs_Qle_condition in Hd. unfold E0 in *. apply Qabs_Qle_condition. split; lra.
+  - specialize (Hd i). apply Qabs_Qle_condition in Hd. unfold E0 in *. rewrite Hvv. apply Qabs_Qle_condition.
+    split; lra.
 Qed.
 
 Lemma interp1_checked0 d rb rb' r r' rb1 :
@@ -125,7 +128,7 @@ Proof.
     eapply do_aspirate_checked0; [exact Hnear|exact (near0_eq _ _ Hv)|exact H].
   - destruct Hr as (f' & -> & Hl & Hp & Hv). cbn [interp1] in *. rewrite Hl, Hp.
     eapply do_dispense_checked0; [exact Hnear|exact (near0_eq _ _ Hv)|exact H].
-  - subst r'. cbn [interp1] in *. exact (do_reagent_checked0 d rb rb' f rb1 Hnear H).
+  - destruct Hr as (v & -> & Hvv & _). cbn [interp1] in *. exact (do_reagent_checked0 d rb rb' f v rb1 Hvv Hnear H).
 Qed.
 
 (** records that agree up to [==] on the A / D volumes, replayed WITH the volume checks on robots that agree
@@ -144,7 +147,7 @@ Qed.
 
 (** C01_rendered_exact with the checks switched on *)
 Theorem rendered_exact_checked d rb recs rb1 :
-  Forall rec_valid recs -> Forall r_int recs -> Forall cents_ok recs ->
+  Forall rec_valid recs -> Forall r_num recs -> Forall cents_ok recs ->
   interp true d rb recs = Some rb1 ->
   exists rb1', interp_text true d rb (map render recs) = Some rb1' /\
                Forall2 rack_eqv (rb_racks rb1) (rb_racks rb1').
@@ -269,6 +272,47 @@ Proof.
   split; [apply ex_state_good; discriminate|]. split; [reflexivity|]. split; [reflexivity|].
   split; [repeat (apply Forall_cons || apply Forall_nil); exact I|].
   split; [repeat (apply Forall_cons || apply Forall_nil); exact I|].
+  split; [vm_compute; repeat (apply Forall_cons || apply Forall_nil); reflexivity|].
+  set (recs := w_recs _). vm_compute in recs. subst recs.
+  repeat (apply Forall_cons || apply Forall_nil); cbn [cents_ok ad_volume]; try exact I;
+    match goal with |- exists z, (?v * 100 == _)%Q => exists (Qnum (Qred (v * 100))); vm_compute; reflexivity end.
+Qed.
+
+(* ------------------------------------------------------------------ a program with FLOAT distribute volumes *)
+
+Definition ex_dargs_f (col : Z) (q : Q) : distargs :=
+  {| d_source_column := col; d_volume := RVFloat (XQ q); d_diti_reuse := 1; d_multi_disp := 1;
+     d_liquid_class := PStr "W"; d_label := None; d_direction := "left_to_right";
+     d_src_id := PStr ""; d_src_type := PStr ""; d_dst_id := PStr ""; d_dst_type := PStr "" |}.
+
+(** on [ex_state Evo]: a transfer, a distribute of the float 12.5 to two plate wells, a distribute of the float
+    2^-10 = 0.0009765625 to one well (an R record is not rounded to two decimals) *)
+Definition float_prog : list op :=
+  [OTransfer 0 (A1 ["A01"]) 0 (A1 ["A02"]) (A1 [100]%Q) None SFlush "auto" kw_default;
+   ODistribute 1 0 (A1 ["A02"; "B02"]) (ex_dargs_f 0 (25 # 2));
+   ODistribute 1 0 (A1 ["B01"]) (ex_dargs_f 1 (1 # 1024));
+   OCommit].
+
+Lemma float_prog_hyps :
+  good_state (ex_state Evo) /\ w_recs (st_wl (ex_state Evo)) = [] /\
+  forallb wl_op float_prog = true /\ Forall (op_ok (ex_state Evo)) float_prog /\
+  Forall op_text_ok float_prog /\
+  Forall (fun e => e = None) (snd (run (ex_state Evo) float_prog)) /\
+  Forall cents_ok (w_recs (st_wl (fst (run (ex_state Evo) float_prog)))).
+Proof.
+  split; [apply ex_state_good; discriminate|]. split; [reflexivity|]. split; [reflexivity|].
+  split.
+  { constructor; [exact I|]. constructor; [|constructor; [|constructor; [exact I|constructor]]].
+    - split; [left; reflexivity|]. intros Ld ps HLd Hps. cbn in HLd. injection HLd as <-.
+      vm_compute in Hps. injection Hps as <-.
+      repeat (constructor; [cbn; intuition discriminate|]). constructor.
+    - split; [left; reflexivity|]. intros Ld ps HLd Hps. cbn in HLd. injection HLd as <-.
+      vm_compute in Hps. injection Hps as <-.
+      repeat (constructor; [cbn; intuition discriminate|]). constructor. }
+  split.
+  { constructor; [exact I|]. constructor; [|constructor; [|constructor; [exact I|constructor]]].
+    - right. exists (25 # 2)%Q, 1%nat. split; reflexivity.
+    - right. exists (1 # 1024)%Q, 10%nat. split; reflexivity. }
   split; [vm_compute; repeat (apply Forall_cons || apply Forall_nil); reflexivity|].
   set (recs := w_recs _). vm_compute in recs. subst recs.
   repeat (apply Forall_cons || apply Forall_nil); cbn [cents_ok ad_volume]; try exact I;
